@@ -707,6 +707,19 @@ def _altering_calls(t, value_terms) -> List[str]:
     """String-altering calls whose receiver / argument involves one of the value terms."""
     out = []
     if isinstance(t, tuple) and t:
+        if t[0] == "comp":
+            # variables bound over a value-derived iterable carry the value
+            vt = list(value_terms)
+            for var, it, conds in t[3]:
+                if any(contains(it, v) for v in vt):
+                    for name in [var] + [x.strip() for x in var.strip("()").split(",")]:
+                        vt.append(("bv", name))
+            out.extend(_altering_calls(t[2], vt))
+            for var, it, conds in t[3]:
+                out.extend(_altering_calls(it, vt))
+                for c_ in conds:
+                    out.extend(_altering_calls(c_, vt))
+            return out
         if t[0] == "call" and t[1][0] == "attr" and t[1][2] in DENY and any(contains(t[1][1], v) for v in value_terms):
             out.append(f".{t[1][2]}() on {show(t[1][1])[:40]}")
         if t[0] == "call" and t[1][0] == "attr" and t[1][2] == "split" and not t[2] and any(contains(t[1][1], v) for v in value_terms):
